@@ -60,14 +60,15 @@ def run(chk):
     chk.registry = REG
     chk.explanation = ('P: the customisation protocol of the cleaners: ListProperty.clean (has_custom <=> some element custom, both element kinds; callee receives this '
                        'call\'s allow_custom), HashesProperty.clean (flag is the OR over entries: prefix invariant; strict => no custom entry gets through), '
-                       'ReferenceProperty.clean (flag formula; strict => not custom), dict_to_stix2 (unknown type and not allow_custom => ParseError unless the documented '
+                       'ReferenceProperty.clean (flag formula; strict => not custom), ExtensionsProperty.clean (flag is the OR over entries, ready-made extension objects included; '
+                       'strict => no custom entry; constructor receives this call\'s allow_custom), dict_to_stix2 (unknown type and not allow_custom => ParseError unless the documented '
                        'extension-definition escape; constructor receives this call\'s allow_custom).  B: every valid object (minimal and all-optional form) x '
                        'injection site (top level, each embedded object, each extension, hash dictionaries in both entry orders, each reference, bundle member, '
                        'observed-data member) x custom kind: strict constructors/parse refuse; with customisation allowed has_custom <=> a strict re-parse of the '
                        'serialization is refused; unregistered top-level types (with every kind of extension entry) and custom content in 6 input forms through parse, '
                        'Environment.parse, Bundle, MemoryStore / MemorySink / FileSystemStore created with allow_custom=False.  The accumulation loop of _STIXBase.__init__ is bounded only.')
     chk.assume('the documented custom_properties keyword is a known finding (admits custom properties in strict mode)')
-    for c in (K.list_clean_contract(), K.hashes_clean_contract(), K.reference_clean_contract(), KP.dict_to_stix2_contract()):
+    for c in (K.list_clean_contract(), K.hashes_clean_contract(), K.reference_clean_contract(), K.extensions_clean_contract(), KP.dict_to_stix2_contract()):
         chk.prove(c); chk.canary(c)
     tabs = {v: T.frozen(v) for v in ('2.0', '2.1')}
 
